@@ -8,6 +8,7 @@ import (
 
 	"goa.design/goa/v3/codegen"
 	"goa.design/goa/v3/codegen/example"
+	"goa.design/goa/v3/codegen/service"
 	"goa.design/goa/v3/expr"
 )
 
@@ -141,15 +142,13 @@ func dummyMultipartFile(genpkg string, root *expr.RootExpr, svc *expr.HTTPServic
 		scope = codegen.NewNameScope()
 	)
 	// determine the unique API package name different from the service names
+	// (all the services, including the ones that have no HTTP transport)
 	for _, svc := range root.Services {
-		s := HTTPServices.Get(svc.Name)
+		s := service.Services.Get(svc.Name)
 		if s == nil {
-			panic("unknown http service, " + svc.Name) // bug
-		}
-		if s.Service == nil {
 			panic("unknown service, " + svc.Name) // bug
 		}
-		scope.Unique(s.Service.PkgName)
+		scope.Unique(s.PkgName)
 	}
 	{
 		specs := []*codegen.ImportSpec{
